@@ -919,6 +919,7 @@ structure Faithful (sk : Skeleton) : Prop where
   fallback : sk.lkFallbackIsClosureManager = true
   fallbackNonFunc : sk.lkFallbackRejectsNonFunc = true
   argCount : sk.lkArgCountChecked = true
+  perRequest : sk.lkResolvesPerRequest = true   -- `resolve` is a function of the CURRENT root: nothing resolved earlier is reused
 
 theorem walkX_cons (sk : Skeleton) (hf : Faithful sk) (chk : Bool) (tt : TypeTable) (cur : Option RV)
     (name : String) (rest : List String) :
